@@ -10,8 +10,47 @@ OPS_SPEC_CAN_DIFFER = {"dquo", "dquoru", "dmul", "dquot"}   # ops for which mode
 JSON_OPS = {"ijson", "ujson"}     # text decoders belong to C20
 
 
+NTEXT = {"quick": 4000, "thorough": 200000}
+
+
+def dec_text(a, v, res, cov):
+    """the text form of a Dec (String, NewDecFromStr: how every decimal leaves and enters the arithmetic) against the model's
+    dec_to_text / text_to_dec - engine `codec`, streams DS and DP only"""
+    out = os.path.join(c.WORK, "codec-ds-%s-%d" % (a.tier, a.seed))
+    rc, log = c.run_engine("codec", ["-seed", str(a.seed), "-n", str(NTEXT[a.tier]), "-only", "DS"], out, timeout=1200)
+    if rc != 0:
+        v.broken_obligation("codec driver (decimal text) failed on the implementation", log[-1500:])
+        return
+    ops = [l.rstrip("\n").split(" ", 1) for l in open(os.path.join(out, "codec.ops"))]
+    impl = dict(l.rstrip("\n").split(" ", 1) for l in open(os.path.join(out, "codec.impl")))
+    if not (res.coq_ok and res.ocaml_ok):
+        return
+    rc, err = c.run_model("codec", os.path.join(out, "codec.ops"), os.path.join(out, "codec.model"))
+    if rc != 0:
+        v.broken_obligation("extracted model failed to run (decimal text)", err[-1500:])
+        return
+    model = dict(l.rstrip("\n").split(" ", 1) for l in open(os.path.join(out, "codec.model")))
+    bad = 0
+    for ident, op in ops:
+        r, m = impl.get(ident, "MISSING"), model.get(ident, "MISSING")
+        if r != m:
+            bad += 1
+            if bad <= 3:
+                def txt(x):
+                    try:
+                        return bytes.fromhex(x).decode("utf-8", "replace")
+                    except ValueError:
+                        return x
+                kind, arg = op.split(" ", 1)
+                what = ("Dec with raw value %s prints as `%s`, its exact decimal expansion is `%s`" % (arg, txt(r), txt(m))) if kind == "DS" else \
+                       ("the text `%s` is read as %s, exactly it denotes %s" % (txt(arg), r, m))
+                v.violation({"engine": "codec", "stream": kind, "kind": "decimal-text"}, what, {"op": op, "impl": r, "spec": m, "seed": a.seed, "case": ident})
+    cov["decimal_text_cases"] = len(ops)
+    cov["decimal_text_mismatches"] = bad
+
+
 def run(a, prop="C18", only_ops=None, exclude_ops=JSON_OPS):
-    res = c.build(["num"])
+    res = c.build(["num", "codec"] if prop == "C18" else ["num"])
     v = c.Verdict(prop, a.tier, a.seed)
     c.check_build(v, res, prop)
     ev = c.base_evidence(prop, a.tier, a.seed, res)
@@ -23,6 +62,8 @@ def run(a, prop="C18", only_ops=None, exclude_ops=JSON_OPS):
             v.broken_obligation("num driver failed on the implementation", log[-2000:])
         else:
             compare(v, res, out, cov, only_ops, exclude_ops)
+        if prop == "C18":
+            dec_text(a, v, res, cov)
     return v.finish(ev)
 
 
